@@ -94,6 +94,7 @@ def quote_template(F, o):
 
 
 def run(F, R, tier, cfg):
+    demux_sibling_rule(F, R)
     # ---------------- Q
     v = F.const_value(MAXC)
     R.ob("TBL-1232", "SCMP_ERROR_MAX_PACKET_SIZE == 1232 (evaluated: %s)" % v, v == 1232, True)
@@ -456,3 +457,47 @@ def _refs_local(b, op, l):
         if d[0] == "assign" and d[4][0] == "ref" and d[4][2][0] == l:
             return True
     return False
+
+
+DEMUX_VIEW = "sciparse::proto::payload::scmp::view::ScmpPayloadView::dst_port"
+DEMUX_MODEL = "sciparse::proto::payload::scmp::model::ScmpMessage::dst_port"
+
+
+def _skeleton(F, p):
+    """(return origin, sorted set of branch conditions) of a body, call-site ids stripped"""
+    b = F.body(p)
+    conds = set()
+    for g in sorted(b.live_blocks()):
+        t = b.term(g)
+        if t[0] == "switch":
+            conds.add(fmt(strip_sites(b.origin(t[1])), 400))
+    return fmt(strip_sites(b.local_origin(0)), 600), conds
+
+
+def demux_sibling_rule(F, R):
+    """SIB-demux: "received SCMP errors reach the application-side receivers": the receivers are found through
+    dst_port(), which exists twice — on the view (used by the dispatchers) and on the model.  Both extract the quoted
+    datagram's source port with a closure over the quoted bytes; the two closures must decide identically: same result
+    expression and the same set of branch conditions.  A condition present in only one of them (e.g. a length-consistency
+    test, which a quote truncated to the 1232-byte budget can never pass) makes errors for large datagrams undeliverable on
+    that side only."""
+    import c03
+    cv = [q for q in F.closure_children(DEMUX_VIEW) if F.has_body(q)]
+    cm = [q for q in F.closure_children(DEMUX_MODEL) if F.has_body(q)]
+    R.floor("SIB-demux", min(len(cv), len(cm)), 1, "udp_src_port closures of ScmpPayloadView::dst_port and ScmpMessage::dst_port")
+    if not cv or not cm:
+        return
+    R.fn(cv[0])
+    R.fn(cm[0])
+    rv, gv = _skeleton(F, cv[0])
+    rm, gm = _skeleton(F, cm[0])
+    ok = rv == rm and gv == gm
+    extra_v, extra_m = sorted(gv - gm), sorted(gm - gv)
+    R.ob("SIB-demux", "view and model extract the demultiplexing port of a quoted datagram identically (%d conditions)" % len(gv), ok, True,
+         {"rule": "SIB-demux", "view": cv[0], "model": cm[0], "only_in_view": extra_v, "only_in_model": extra_m, "same_result": rv == rm, "holds": ok})
+    if not ok:
+        R.violation("SIB-demux", DEMUX_VIEW, "the view's and the model's dst_port disagree on when a quoted datagram yields a port: conditions only in the view: %s; "
+                    "only in the model: %s; same result expression: %s — SCMP errors are dropped by one side's dispatchers"
+                    % ([x[:120] for x in extra_v], [x[:120] for x in extra_m], rv == rm), F.loc(DEMUX_VIEW))
+    # CK-zero (shared with C03): the checksum field is cleared before the digest reads the buffer, in every SCMP encoder
+    c03.checksum_rule(F, R)
